@@ -94,6 +94,44 @@ def seededFlags (rows : Rows) (argv : List String) : Option String :=
     if nbRogueSites + nbSites > L then pure "rc=1 out=" else
     let r := runCmd (shuffleSites nbSites nbRogueSites (fracOf rogue n) stable rows) s 0
     pure ("rc=0 out=" ++ fasta r.1 ++ (← namesTo rf r.2))
+  | "shuffle" :: "swap" :: fl => do
+    -- cmd/swap.go: per alignment `Swap(rate, pos)`; `pos` outside [0,1] (default -1) = a random position per pair
+    let o ← parseOpts [("-r", "--rate")] [] ["--seed", "--rate", "--pos"] fl
+    let s ← seedOf o
+    let rate ← parseSDec (← optOr o "swapCmd" "rate")
+    let pos ← parseSDec (← optOr o "swapCmd" "pos")
+    if rate < 0 || rate > 1 then pure "rc=1 out=" else
+    let fixed : Option Nat := if pos < 0 || pos > 1 then none else some (Float.ofNat L * pos).floor.toUInt64.toNat
+    pure ("rc=0 out=" ++ fasta (runCmd (swapRows (fracOf rate n) L fixed rows) s 0))
+  | "shuffle" :: "recomb" :: fl => do
+    -- cmd/recomb.go: per alignment `Recombine(prop-seq, prop-length, swap)`
+    let o ← parseOpts [("-n", "--prop-seq"), ("-l", "--prop-length")] ["--swap"] ["--seed", "--prop-seq", "--prop-length", "--swap"] fl
+    let s ← seedOf o
+    let prop ← parseSDec (← optOr o "recombCmd" "prop-seq")
+    let lp ← parseSDec (← optOr o "recombCmd" "prop-length")
+    let sw := (← optOr o "recombCmd" "swap") == "true"
+    if prop < 0 || prop > 0.5 || lp < 0 || lp > 1 then pure "rc=1 out=" else
+    pure ("rc=0 out=" ++ fasta (runCmd (recombine (fracOf prop n) (fracOf lp L) L sw rows) s 0))
+  | "shuffle" :: "rogue" :: fl => do
+    -- cmd/rogue.go: per alignment `SimulateRogue(prop-seq, length)`, the alignment, then the rogue names; arguments
+    -- outside [0,1]: nothing is drawn, nothing changes, no name
+    let o ← parseOpts [("-n", "--prop-seq"), ("-l", "--length")] [] ["--seed", "--prop-seq", "--length", "--rogue-file"] fl
+    let s ← seedOf o
+    let prop ← parseSDec (← optOr o "rogueCmd" "prop-seq")
+    let pl ← parseSDec (← optOr o "rogueCmd" "length")
+    let rf ← optOr o "rogueCmd" "rogue-file"
+    if prop < 0 || prop > 1 || pl < 0 || pl > 1 then pure ("rc=0 out=" ++ fasta rows ++ (← namesTo rf [])) else
+    let prop := if pl == 0 then 0 else prop
+    let r := runCmd (simulateRogue (fracOf prop n) (fracOf pl L) L rows) s 0
+    pure ("rc=0 out=" ++ fasta r.1 ++ (← namesTo rf r.2.1))
+  | "mutate" :: "gaps" :: fl => do
+    -- cmd/addgaps.go: per alignment `AddGaps(rate, prop-seq)`; `--rate` is the flag of the parent command `mutate`
+    let o ← parseOpts [("-r", "--rate"), ("-n", "--prop-seq")] [] ["--seed", "--rate", "--prop-seq"] fl
+    let s ← seedOf o
+    let lp ← parseSDec (← optOr o "mutateCmd" "rate")
+    let p ← parseSDec (← optOr o "addgapsCmd" "prop-seq")
+    if p < 0 || p > 1 || lp < 0 || lp > 1 then pure ("rc=0 out=" ++ fasta rows) else
+    pure ("rc=0 out=" ++ fasta (runCmd (addGaps (fracOf p n) (fracOf lp L) L rows) s 0))
   | _ => none
 
 def sameVerdict (impl what : String) : Ans :=
